@@ -671,6 +671,26 @@ func (m *Machine) assume(c *Term) {
 	}
 	m.indexPC(c)
 	m.narrowDomain(c)
+	// a variable equality becomes a rewrite rule for later goals
+	if c.Op == "=" && c.Args[0].Op == "var" && c.Args[1].Op == "var" && c.Args[0].W == c.Args[1].W {
+		a, b := c.Args[0], c.Args[1]
+		if m.alias == nil {
+			m.alias = map[string]*Term{}
+		}
+		// resolve through existing aliases; keep the earlier-named variable
+		ra, rb := a, b
+		if x, ok := m.alias[a.Name]; ok {
+			ra = x
+		}
+		if x, ok := m.alias[b.Name]; ok {
+			rb = x
+		}
+		if ra.Op == "var" && rb.Op == "var" && ra.Name != rb.Name {
+			if _, taken := m.alias[rb.Name]; !taken {
+				m.alias[rb.Name] = ra
+			}
+		}
+	}
 	m.pc = append(m.pc, c)
 	if m.sol != nil {
 		m.sol.Assert(c)
@@ -770,7 +790,7 @@ func (m *Machine) globalCell(g *ssa.Global) *Cell {
 	if c, ok := m.globals[g]; ok {
 		return c
 	}
-	if g.Pkg != nil && g.Pkg != m.prog.main && !m.prog.initAllow[g.Pkg.Pkg.Path()] && !m.specialGlobal {
+	if g.Pkg != nil && g.Pkg != m.prog.main && !m.prog.initAllow[g.Pkg.Pkg.Path()] && !m.specialGlobal && g.String() != "os.Args" {
 		m.unmodelled("global %s of a package whose initialiser is not modelled", g.String())
 	}
 	o := &Obj{id: 0, epoch: 0, site: "global " + g.String()}
@@ -1423,14 +1443,20 @@ func (m *Machine) rangeNext(iter Val, x *ssa.Next) Val {
 	switch it := iter.(type) {
 	case *mapIter:
 		for {
-			// drop deleted entries that have not been produced yet
-			live := it.ents[:0:0]
-			for _, e := range it.ents[it.pos:] {
-				if !e.deleted {
-					live = append(live, e)
+			// skip entries deleted since the range began
+			if it.perm {
+				live := it.ents[:0:0]
+				for _, e := range it.ents[it.pos:] {
+					if !e.deleted {
+						live = append(live, e)
+					}
+				}
+				it.ents = append(it.ents[:it.pos:it.pos], live...)
+			} else {
+				for it.pos < len(it.ents) && it.ents[it.pos].deleted {
+					it.pos++
 				}
 			}
-			it.ents = append(it.ents[:it.pos:it.pos], live...)
 			if it.pos >= len(it.ents) {
 				kt, vt := it.kvTypes(x)
 				return TupleV{tFalse, zero(kt, nil), zero(vt, nil)}
